@@ -137,11 +137,11 @@ def unit(args: dict) -> dict:
 
 def families(tier: str, seed: int) -> List[gen.Spec]:
     q = tier == "quick"
-    return (gen.family_H(seed, 5 if q else 120)
-            + gen.family_T_random(seed + 1, 10 if q else 200, min_states=4, max_states=6)
-            + gen.family_D(seed + 2, 3 if q else 80)
-            + gen.family_R(seed + 3, 8 if q else 150)
-            + gen.family_F(seed + 4, 5 if q else 80))
+    return (gen.family_H(seed, 5 if q else 30)
+            + gen.family_T_random(seed + 1, 10 if q else 50, min_states=4, max_states=6)
+            + gen.family_D(seed + 2, 3 if q else 20)
+            + gen.family_R(seed + 3, 8 if q else 37)
+            + gen.family_F(seed + 4, 5 if q else 20))
 
 
 def run(prop: str, tier: str, seed: int) -> int:
